@@ -9,7 +9,7 @@ c12_preload : preload_content=True: .data equals the same bytes, for every segme
 """
 from __future__ import annotations
 
-from kit.h import P, run, mark, known
+from kit.h import P, run, mark, known, decode_point
 from kit import net as N
 from kit.fixtures import FIXTURES, BY_NAME
 
@@ -55,9 +55,6 @@ def open_response(fx, seg, dc, preload=False, body=None):
     """Request + status line + header block: everything up to the first body byte depends on no symbolic value
     (seg and dc are realised first), so it runs outside the tracer (same real code, same objects) unless the body
     is preloaded, which reads it inside getresponse()."""
-    from kit.h import concretize
-    seg = concretize(seg)
-    dc = concretize(dc)
     peer = BodyPeer(fx.head, fx.body if body is None else body, seg)
     netw = N.install(peer)
     conn = HTTPConnection("h", 80)
@@ -65,7 +62,7 @@ def open_response(fx, seg, dc, preload=False, body=None):
     def go():
         conn.request("GET", "/", preload_content=preload, decode_content=dc)
         return conn.getresponse()
-    resp = go() if preload else N._untraced(go)()
+    resp = go()
     if not preload:
         _guard(resp, len(fx.body) * 3 + 60)
     return resp, conn, peer, netw
@@ -219,23 +216,44 @@ def _script(calls, fin, m):
         return "?"
 
 
-def c12_script(dc: bool, seg: int, ncalls: int, k1: int, n1: int, k2: int, n2: int, k3: int, n3: int,
-               fin: int, m: int) -> bool:
+def script_dims(part):
+    """dims of one partition: decode, segmentation, up to 3 prefix calls (kind, amount), finisher (kind, amount)."""
+    def calls(kinds, ns):
+        return [(k, n) for k in kinds for n in (ns if k in (K_READN, K_READ1N, K_READINTO) else ns[:1])]
+    dims = [part["dcs"], part["segs"]]
+    n = part["ncalls"]
+    first = calls(part["kinds1"], part["ns"])
+    if part.get("ncalls_min", n) == 0:
+        first = [None] + first
+    if n >= 1:
+        dims.append(first)
+    if n >= 2:
+        dims.append(calls(part["kinds"], part["ns2"]))
+    if n >= 3:
+        dims.append(calls(part["kinds"], part["ns2"]))
+    dims.append([(f, m) for f in part["fins"] for m in (part["ms"] if f in (F_LOOP_READ, F_LOOP_READ1, F_LOOP_READINTO, F_STREAM, F_READ_CHUNKED)
+                                                       else part["ms"][:1])])
+    return dims
+
+
+def _script_point(idx):
+    vals = decode_point(idx, script_dims(P))
+    dc, seg = vals[0], vals[1]
+    calls = [c for c in vals[2:-1] if c is not None]
+    fin, m = vals[-1]
+    if fin == F_ITER and not dc:
+        return True            # iteration always decodes: only meaningful with decode_content=True
+    calls = (calls + [(0, 1)] * 3)[:3]
+    ncalls = len([c for c in vals[2:-1] if c is not None])
+    return N._untraced(_script_body)(dc, seg, ncalls, calls[0][0], calls[0][1], calls[1][0], calls[1][1], calls[2][0], calls[2][1], fin, m)
+
+
+def c12_script(idx: int) -> bool:
     """
-    pre: seg in P.segs
-    pre: 0 <= ncalls <= P.ncalls and ncalls >= P.ncalls_min
-    pre: k1 in P.kinds1 and k2 in P.kinds and k3 in P.kinds
-    pre: n1 in P.ns and n2 in P.ns2 and n3 in P.ns2
-    pre: (ncalls >= 1 or (k1 == P.kinds1[0] and n1 == P.ns[0])) and (ncalls >= 2 or (k2 == P.kinds[0] and n2 == P.ns2[0])) and (ncalls >= 3 or (k3 == P.kinds[0] and n3 == P.ns2[0]))
-    pre: fin in P.fins and m in P.ms
-    pre: k1 in (0, 1, 2) or n1 == P.ns[0]
-    pre: k2 in (0, 1, 2) or n2 == P.ns2[0]
-    pre: k3 in (0, 1, 2) or n3 == P.ns2[0]
-    pre: fin in (1, 2, 3, 4, 5) or m == P.ms[0]
-    pre: dc in P.dcs and (dc or fin != 6)
+    pre: 0 <= idx < P.n
     post: _
     """
-    return run(_script_body, dc, seg, ncalls, k1, n1, k2, n2, k3, n3, fin, m)
+    return run(_script_point, idx)
 
 
 def _preload_body(dc, seg):
@@ -254,12 +272,20 @@ def _preload_body(dc, seg):
         N.uninstall()
 
 
-def c12_preload(dc: bool, seg: int) -> bool:
+def _preload_point(idx):
+    dc, seg = decode_point(idx, [[True, False], list(range(1, P.segmax + 1))])
+    return N._untraced(_preload_body)(dc, seg)
+
+
+def c12_preload(idx: int) -> bool:
     """
-    pre: 1 <= seg <= P.segmax
+    pre: 0 <= idx < P.n
     post: _
     """
-    return run(_preload_body, dc, seg)
+    return run(_preload_point, idx)
+
+
+DIMS = {"c12_script": script_dims, "c12_preload": lambda part: [[True, False], list(range(1, part["segmax"] + 1))]}
 
 
 QUICK_FIX = ["cl/identity/5", "chunked/identity/5/1-2", "close/identity/5", "cl/identity/0", "cl/gzip/17", "cl/gzip2/17",
@@ -270,7 +296,7 @@ QUICK_FIX = ["cl/identity/5", "chunked/identity/5/1-2", "close/identity/5", "cl/
 def JOBS(tier):
     quick = tier == "quick"
     jobs = []
-    t = 150 if quick else 1500
+    t = 170 if quick else 1500
     allk = [K_READN, K_READ1N, K_READINTO, K_READ0, K_READ1, K_READALL]
     for fx in FIXTURES:
         if quick and fx.name not in QUICK_FIX:
@@ -291,22 +317,15 @@ def JOBS(tier):
         base = {"fixture": fx.name, "segs": segs, "ns": ns, "ns2": ns, "ms": ms, "fins": fins, "dcs": dcs}
         jobs.append({"func": "c12_preload", "part": {"fixture": fx.name, "segmax": W + 1}, "timeout": t, "samples": 1})
         # 0-1 prefix call (every kind, every amount in ns) + every finisher
-        for k in allk:
-            for dc in dcs:
-                jobs.append({"func": "c12_script", "timeout": t, "path_timeout": 60, "samples": 1,
-                             "part": dict(base, dcs=[dc], ncalls=1, ncalls_min=0 if k == K_READN else 1, kinds1=[k], kinds=[K_READN])})
-        # two prefix calls: partition by both kinds
-        if L and not quick:
+        jobs.append({"func": "c12_script", "timeout": t, "path_timeout": 60, "samples": 1,
+                     "part": dict(base, ncalls=1, ncalls_min=0, kinds1=allk, kinds=[K_READN])})
+        # two prefix calls
+        if L and (not quick or fx.name in ("cl/gzip/17", "chunked/identity/5/1-2", "cl/zstd2/17", "cl/identity/5", "chunked/zstd2/17/3-11")):
             for ka in allk:
-                for kb in allk:
-                    jobs.append({"func": "c12_script", "timeout": t, "path_timeout": 60, "samples": 1,
-                                 "part": dict(base, ncalls=2, ncalls_min=2, kinds1=[ka], kinds=[kb],
-                                              segs=[1, W + 1], ns2=sorted({1, 3, L + 1}), ms=[1, 2])})
-        elif L and fx.name in ("cl/gzip/17", "chunked/identity/5/1-2", "cl/zstd2/17", "cl/identity/5"):
-            for ka in (K_READN, K_READ1N, K_READINTO, K_READ1):
                 jobs.append({"func": "c12_script", "timeout": t, "path_timeout": 60, "samples": 1,
-                             "part": dict(base, ncalls=2, ncalls_min=2, kinds1=[ka], kinds=[K_READN, K_READ1N, K_READALL],
-                                          segs=[1], ns=[1, 2], ns2=[3], ms=[2], dcs=[True])})
+                             "part": dict(base, ncalls=2, ncalls_min=2, kinds1=[ka], kinds=allk, segs=[1, W + 1],
+                                          ns=ns if not quick else sorted({1, 2, L - 1, L + 1}), ns2=sorted({1, 3, L + 1}),
+                                          ms=[1, 2] if not quick else [2])})
         if not quick and 0 < L <= 5:
             for ka in allk:
                 for kb in allk:
@@ -320,7 +339,7 @@ EVIDENCE = {
     "bounds": {"quick": "14 fixtures (payload 0/5/17 B x {identity,gzip,2-member gzip,gzip+garbage,raw deflate,zstd,2-frame zstd,gzip+deflate} x "
                         "{Content-Length, chunked with size vectors and extensions, close-delimited}): segmentation {1, whole}, 0-1 prefix "
                         "call of every kind with amounts {1,2,len-1,len+1} (all 1..len+2 for payloads <= 5 B), every finisher with m in {1,3}, "
-                        "decode on/off; 2-call prefixes on 4 fixtures; preload for every segmentation",
+                        "decode on/off; 2-call prefixes (all 36 kind pairs, amounts {1,2,len-1,len+1} x {1,3,len+1}) on 5 fixtures; preload for every segmentation; every point is one solver model of a single index variable (bisection), executed on the real code",
                "thorough": "amounts up to len+2 (<=19), m <= 6, all 36 kind pairs for 2-call prefixes on every fixture, 3-call prefixes on the 5-byte fixtures"},
     "outside": ["payloads > 40 bytes; effects of the 8 KiB / 64 KiB buffer sizes", "the codecs themselves (zlib, zstandard are C: concrete streams)",
                 "brotli (not installed)", "decode_content changed between calls of one response (documented as unsupported: RuntimeError)"],
